@@ -271,4 +271,8 @@ def classify(case, info):
         labels.append('valid-request-after-a-rejected-one')
     if lay.get('relpath'):
         labels.append('relative-paths-then-chdir')
+    if lay.get('fortran'):
+        labels.append('fortran-ordered-npy')
+    if lay.get('params_kw'):
+        labels.append('opened-with-params-keywords')
     return labels, nt
